@@ -51,6 +51,8 @@ pub struct ESpec {
     pub central_name: Option<Vec<u8>>,
     /// "version needed to extract" in both headers (None = 20, or 45 with ZIP64 fields)
     pub version_needed: Option<u16>,
+    /// the entry's own local/central extra blocks go in FRONT of the AES block (default: behind it)
+    pub extra_first: bool,
 }
 
 impl Default for ESpec {
@@ -78,6 +80,7 @@ impl Default for ESpec {
             crc_override: None,
             central_name: None,
             version_needed: None,
+            extra_first: false,
         }
     }
 }
@@ -210,9 +213,14 @@ pub fn build(spec: &Spec) -> (Vec<u8>, Layout) {
             p64(&mut lextra, if zero_local { 0 } else { usize_ });
             p64(&mut lextra, if zero_local { 0 } else { csize });
         }
+        if e.extra_first {
+            lextra.extend_from_slice(&e.local_extra);
+        }
         let aes_l_off = lextra.len();
         lextra.extend_from_slice(&aes_extra);
-        lextra.extend_from_slice(&e.local_extra);
+        if !e.extra_first {
+            lextra.extend_from_slice(&e.local_extra);
+        }
         p32(&mut out, 0x04034b50);
         p16(&mut out, e.version_needed.unwrap_or(if e.zip64_local { 45 } else { 20 }));
         p16(&mut out, flags);
@@ -299,9 +307,14 @@ pub fn build(spec: &Spec) -> (Vec<u8>, Layout) {
             zbody_off = Some(cextra.len() + 4);
             cextra.extend_from_slice(&z);
         }
+        if e.extra_first {
+            cextra.extend_from_slice(&e.central_extra);
+        }
         let aes_c_off = cextra.len();
         cextra.extend_from_slice(&d.aes_extra);
-        cextra.extend_from_slice(&e.central_extra);
+        if !e.extra_first {
+            cextra.extend_from_slice(&e.central_extra);
+        }
         if e.zip64_after && !z.is_empty() {
             zbody_off = Some(cextra.len() + 4);
             cextra.extend_from_slice(&z);
@@ -473,7 +486,7 @@ impl ESpec {
             "local_extra": crate::util::hex(&self.local_extra), "central_extra": crate::util::hex(&self.central_extra),
             "comment": crate::util::hex(&self.comment), "made_by": self.made_by, "ext_attr": self.ext_attr,
             "time": self.time, "date": self.date, "enc": enc, "gap_before": self.gap_before, "extra_flags": self.extra_flags,
-            "crc_override": self.crc_override, "central_name": self.central_name.as_ref().map(|p| crate::util::hex(p)), "version_needed": self.version_needed,
+            "crc_override": self.crc_override, "central_name": self.central_name.as_ref().map(|p| crate::util::hex(p)), "version_needed": self.version_needed, "extra_first": self.extra_first,
         })
     }
     pub fn from_json(v: &Value) -> ESpec {
@@ -513,6 +526,7 @@ impl ESpec {
             crc_override: v["crc_override"].as_u64().map(|x| x as u32),
             central_name: v["central_name"].as_str().map(crate::util::unhex),
             version_needed: v["version_needed"].as_u64().map(|x| x as u16),
+            extra_first: v["extra_first"].as_bool().unwrap_or(false),
         }
     }
 }
